@@ -197,6 +197,9 @@ class Chk2pltT(tools.ToolCase):
     def draw(self, ctx, src):
         self.c = gen_chk(src)
         self.m = self.c.mesh
+        # the checkpoint prefix is the user's choice in the solver input (amr.check_file)
+        self.primary = src.weighted("chk.name", [("chk00005", 5), ("chk_00120", 1), ("run1_chk00005", 1),
+                                                 ("restart00005", 1), ("ck0001", 1)])
         self.gradp = bool(src.draw("opt.gradp", 0, 1))
         self.reactions = bool(src.draw("opt.reactions", 0, 1))
         self.floor = bool(src.draw("opt.floor", 0, 1))
@@ -210,10 +213,10 @@ class Chk2pltT(tools.ToolCase):
             # the CLI's --species option is typed int: names can only come from a reference plotfile
             self.ref = True
         self.opts.update(gradp=self.gradp, reactions=self.reactions, floor=self.floor, ref=self.ref,
-                         ref_fields=self.ref_fields)
+                         ref_fields=self.ref_fields, name=self.primary)
 
     def materialise(self, root):
-        p = os.path.join(root, "data", "chk00005")
+        p = os.path.join(root, "data", self.primary)
         write_chk(self.c, p)
         ins = [p]
         if self.ref:
@@ -231,7 +234,7 @@ class Chk2pltT(tools.ToolCase):
 
     def call(self, ctx, root):
         cwd = self.cwd(root)
-        inp = tools.in_path(root, "chk00005", self.opts["in_form"], cwd)
+        inp = tools.in_path(root, self.primary, self.opts["in_form"], cwd)
         out_arg, out_abs = self.out_arg(root, "converted")
         self.out_abs = out_abs
         ref = os.path.join(root, "data", "plt_ref") if self.ref else None
@@ -280,6 +283,7 @@ def run_case(ctx):
         if same_root:
             # ... of a checkpoint that lived at the very same path (and was converted to the same place)
             first.opts = dict(t.opts)
+            first.primary = t.primary
         else:
             first.opts.update(in_form="abs", cwd="work", out="abs", cli=False)
         r0 = os.path.join(ctx.scratch, "run" if same_root else "earlier")
@@ -310,7 +314,15 @@ def run_case(ctx):
         if d:
             raise Violation({**sig, "oracle": "checkpoint-modified"},
                             f"conversion changed the input tree {ctx.rel(i)}: {d[:5]}")
-    out = t.out_abs if t.out_abs is not None else os.path.join(root, "data", "plt00005")
+    if t.out_abs is not None:
+        out = t.out_abs
+    elif "chk" in t.primary:
+        out = os.path.join(root, "data", t.primary.replace("chk", "plt"))
+    else:
+        # no documented default name without the 'chk' prefix: wherever it is, it is a new directory beside
+        # the checkpoint (never the checkpoint itself, which the comparison above has just established)
+        new = sorted(d for d in os.listdir(os.path.join(root, "data")) if os.path.join(root, "data", d) not in inputs)
+        out = os.path.join(root, "data", new[0]) if len(new) == 1 else os.path.join(root, "data", "<new directory>")
     if not os.path.isdir(out):
         raise Violation({**sig, "oracle": "output-missing", "form_in": t.opts["in_form"], "form_out": t.opts["out"]},
                         f"no plotfile at {ctx.rel(out)} after a conversion that returned normally; {t.describe()}")
